@@ -135,4 +135,22 @@ QUICK = _with_groups(QUICK, {'T1': ('rev',), 'T3': ('rev',), 'T4': ('flip',), 'B
 for _t in QUICK:
     if _t.name.startswith('B11'): _t.light = True
 
-THOROUGH = []
+# --- thorough tier: more names, larger operators, deeper histories (path / wall budgets apply; a template over budget is reported as not covered)
+THOROUGH = [
+    T('TH6', 'Lf', 6, [add(h(0, 1, 2)), add(h(3, 4, 5)), union(h(0, 1, 2), h(3, 4, 5))], note='h(a,b,c)=h(d,e,f): all 203 sharing patterns of six names (3-cycles, orbit redundancy, mixed)'),
+    T('T6', 'Lf', 6, [add(f(0, 1)), add(g(2, 3)), union(f(0, 1), g(2, 3)), add(f(4, 5)), union(g(2, 3), f(4, 5))], note='two unions chained through g: f(a,b)=g(c,d)=f(e,f)'),
+    T('TW1', 'Lf', 4, [add(w(0, 1, 2, 3)), add(w(1, 0, 2, 3)), union(w(0, 1, 2, 3), w(1, 0, 2, 3)), add(w(0, 1, 3, 2)), union(w(0, 1, 2, 3), w(0, 1, 3, 2)), add(w(0, 2, 1, 3)), union(w(0, 1, 2, 3), w(0, 2, 1, 3)),
+                       add(w(3, 2, 1, 0)), add(w(1, 2, 3, 0))], distinct=[[0, 1, 2, 3]], note='four slots: (0 1), then (2 3), then (1 2) - three successive growths of one group up to S4'),
+    T('TW2', 'Lf', 4, [add(w(0, 1, 2, 3)), add(w(1, 2, 3, 0)), union(w(0, 1, 2, 3), w(1, 2, 3, 0)), add(w(2, 3, 0, 1)), add(w(1, 0, 2, 3))], distinct=[[0, 1, 2, 3]], note='a 4-cycle symmetry'),
+    T('B12', 'Lb', 4, [add(lam(0, app(var(0), var(1)))), add(lam(2, app(var(2), var(3)))), union(lam(0, app(var(0), var(1))), lam(2, app(var(2), var(3)))), add(app(var(1), var(3)))],
+      note='union of two lambdas with free names: redundancy derived under a binder'),
+    T('B13', 'Lb', 3, [add(app(var(0), var(1))), add(var(2)), union(app(var(0), var(1)), var(2)), add(app(app(var(0), var(1)), var(2))), add(lam(0, app(var(0), var(1)))), readd(app(var(2), var(2)))],
+      note='self-referential and collapsing classes followed by further insertions'),
+    T('R8', 'Lb', 5, [add(app(var(0), app(var(1), var(2)))), rewrite(rule('assoc', app('?a', app('?b', '?c')), app(app('?a', '?b'), '?c'))), probe(app(app(var(0), var(1)), var(2))),
+                      rewrite(rule('assoc', app('?a', app('?b', '?c')), app(app('?a', '?b'), '?c')), rule('comm', app('?a', '?b'), app('?b', '?a'))), probe(app(var(2), app(var(0), var(1))))],
+      note='two rounds with variable-only rules on a three-leaf term'),
+    T('X6', 'Lb', 3, [add(app(app(var(0), var(1)), var(2))), add(var(0)), union(app(var(0), var(1)), var(0)), extract(app(app(var(0), var(1)), var(2))), extract(app(app(var(0), var(1)), var(2)), 'Weighted')],
+      note='extraction through a cyclic child class'),
+]
+for _t in THOROUGH: _t.light = _t.name in ('TH6', 'T6', 'TW1', 'R8')
+THOROUGH = _with_groups(THOROUGH, {'T6': ('rev',), 'TW1': ('uflip',)})
